@@ -37,11 +37,12 @@ Section StepDom.
 
   Theorem step_dom prev r acc line s x l osq :
     SInv prev r acc -> decode line = Ok s -> dom_stmt s x l osq ->
-    starred x = false -> nonempty x = true -> (0 <= l)%Z -> ~ In x (map fst (decl_doms prev)) ->
+    starred x = false -> nonempty x = true -> (0 <= l)%Z -> str_eqb x sPlus = false ->
+    ~ In x (map fst (decl_doms prev)) ->
     exists r' acc', read_one ct G None (TList line) acc r = (r', Ok acc') /\
       SInv (prev ++ [s]) r' acc' /\ Later r acc r' acc'.
   Proof.
-    intros [C B] Hdec Hs Hst Hne Hl Hnew.
+    intros [C B] Hdec Hs Hst Hne Hl Hpl Hnew.
     set (st := r_st r). set (i := length (heap st)).
     assert (Hdecl_s : decl_doms [s] = [(x, l)]).
     { destruct Hs as [[-> _]|[sq [chk [sq' [-> [-> _]]]]]]; reflexivity. }
@@ -89,6 +90,9 @@ Section StepDom.
     { intros ri Hri. apply in_or_app. left. exact Hri. }
     { intros j Hj. fold st in Hj. fold i in Hj. subst seq1. destruct osq as [[sq sq']|]; [|auto].
       rewrite attr_get_set. apply Nat.eqb_neq in Hj. rewrite Hj. auto. }
+    { intros n0 names0 sst0 Hin. left. rewrite decl_cplx_snoc in Hin.
+      assert (Ee : cplx_entry prev s = []) by (destruct Hs as [[-> _]|[sq [chk [sq' [-> _]]]]]; reflexivity).
+      rewrite Ee, app_nil_r in Hin. exact Hin. }
     fold st in C1, L1. fold i in C1, L1. fold r1 in C1, L1.
     set (acc1 := with_dict KindD acc (dset x i (dict_of KindD acc))) in *.
     (* the complement *)
@@ -143,6 +147,7 @@ Section StepDom.
     { auto. }
     { intros j Hj. rewrite Len1 in Hj. subst seq3. destruct osq as [[sq sq']|]; [|auto].
       rewrite attr_get_set. apply Nat.eqb_neq in Hj. rewrite Hj. auto. }
+    { intros n0 names0 sst0 Hin. left. exact Hin. }
     fold r3 in C2, L2. fold acc2 in C2, L2.
     (* release *)
     pose proof (read_one_ok ct cd cs cc cm cr line s acc r r1 (RObj i) r3 (acc2, [i; S i]) Hdec Ex Ef') as E3.
